@@ -8,7 +8,7 @@ use crate::runner::*;
 use crate::tape::{Fp, Tape};
 use core::ffi::{c_int, c_ulong};
 
-pub const RULE: &str = "tape -> byte string (noise with plausible headers, mutations of R-GEN / encoder streams, single-fault streams, prefixes, valid streams) x any windowBits accepted by inflateInit2 {-15..-8, 0, 8..15, 24..31, 40..47} (NOT restricted to windows that fit the stream) x schedule with 0/1-byte buffers x entry point {inflate, zlib_rs::Inflate, inflateGetHeader with capture capacities {NULL,0,1,..}, uncompress, uncompress2, decompress_slice, inflateBack (1 case in 8: C19's engine with guard-paged window, callback slices and abort points; only its safety oracles count here)}. Every caller buffer sits between PROT_NONE guard pages (input and output end exactly at the guard). Oracle: worker survives (no signal/abort/panic), canaries before next_out intact, status in the documented set, call count bounded by the schedule, total_out <= 1032*total_in+1032. Non-trivial = decoder got past the wrapper and one block header and produced >= 1 byte or failed inside a block; distinct by (bytes, windowBits, schedule, entry).";
+pub const RULE: &str = "tape -> byte string (noise with plausible headers, mutations of R-GEN / encoder streams, single-fault streams, prefixes, valid streams) x any windowBits accepted by inflateInit2 {-15..-8, 0, 8..15, 24..31, 40..47} (NOT restricted to windows that fit the stream) x schedule with 0/1-byte buffers x entry point {inflate, zlib_rs::Inflate, inflateGetHeader with capture capacities {NULL,0,1,..} on a fresh stream or on one reused (other bytes, abandoned anywhere, inflateReset), uncompress, uncompress2, decompress_slice, inflateBack (1 case in 8: C19's engine with guard-paged window, callback slices and abort points; only its safety oracles count here)}. Every caller buffer sits between PROT_NONE guard pages (input and output end exactly at the guard). Oracle: worker survives (no signal/abort/panic), canaries before next_out intact, status in the documented set, call count bounded by the schedule, total_out <= 1032*total_in+1032. Non-trivial = decoder got past the wrapper and one block header and produced >= 1 byte or failed inside a block; distinct by (bytes, windowBits, schedule, entry).";
 
 const WBITS: [c_int; 38] = [
     -15, -14, -13, -12, -11, -10, -9, -8, 0, 8, 9, 10, 11, 12, 13, 14, 15, 24, 25, 26, 27, 28, 29, 30, 31, 40, 41, 42, 43, 44, 45, 46, 47, 15, -15, 31, 47, 16,
@@ -60,6 +60,9 @@ pub fn case(tape: &[u8], ctx: &Ctx) -> Outcome {
     let caps: [Option<u32>; 10] = [None, Some(0), Some(1), Some(2), Some(7), Some(20), Some(100), Some(300), Some(1000), Some(65535)];
     let cap3 = (t.pick(&caps), t.pick(&caps), t.pick(&caps));
     let mut entry_name = "inflate";
+    let reuse = matches!(entry, 4 | 5) && t.chance(110);
+    let pre_bytes: Vec<u8> = if reuse { gen_subject(&mut t, &so).bytes } else { Vec::new() };
+    let (pre_calls, pre_in, pre_out) = (1 + t.below(3), t.pick(&[1usize, 7, 30, 100, 1000, 100_000]), t.pick(&[0usize, 1, 10, 100, 257, 5000]));
     ARENAS.with(|ar| {
         let mut io = InfOpts::new(wbits);
         io.max_out = 1 << 21;
@@ -79,6 +82,11 @@ pub fn case(tape: &[u8], ctx: &Ctx) -> Outcome {
             4 | 5 => {
                 entry_name = "inflate + inflateGetHeader";
                 io.capture = Some(Capture { extra_max: cap3.0, name_max: cap3.1, comm_max: cap3.2, arenas: &ar.aux });
+                // sometimes on a reused stream: part of other untrusted bytes first, abandoned anywhere, inflateReset
+                if reuse {
+                    io.prehistory = Some(Prehistory { bytes: &pre_bytes, calls: pre_calls, in_chunk: pre_in, out_chunk: pre_out });
+                    entry_name = "inflate + inflateGetHeader on a stream reused after inflateReset";
+                }
                 r = run_inflate::<Rs>(&s.bytes, &sched, &io, ar);
             }
             _ => {
